@@ -13,7 +13,7 @@ EXPLANATION = (
     "`covering prefix found`, and no error return is reachable after the first write (failed punctures leave the "
     "key unchanged); (R4) eval and puncture obtain the covering node from the same lookup function and derive "
     "values by the same bitwise PRG descent from the covering seed over exactly the bits after the covering "
-    "prefix (offset = length of the found prefix on both sides); (R5) every successful puncture passes through the removal of the covering node from the retained set (otherwise the punctured input stays evaluable).  NOT decided: that exactly the punctured inputs "
+    "prefix (offset = length of the found prefix on both sides); (R5) every successful puncture passes through the removal of the covering node from the retained set (otherwise the punctured input stays evaluable); (R6) the initial node for bit b is derived with generator b from the sampled root secret (two different generators - otherwise sibling inputs share values); (R7) evaluation depends, by data and control, only on the retained prefixes, the generators and the input - not on the list of punctured inputs.  NOT decided: that exactly the punctured inputs "
     "are removed and every other value persists over all puncture histories (correctness of the co-path algorithm), "
     "distinctness of values - these need execution or a proof of the algorithm and are outside this family.")
 ASSUMPTIONS = ["bitvec split_at/starts_with/to_bitvec behave as documented (models in sv/models.py)"]
@@ -139,10 +139,66 @@ def run(ctx):
 
     descent_rules(ctx, "C10.R4")
     ctx.floor("C10.R4", 5)
+    # ---- R6 initial nodes: the child for bit b is derived with PRG b (the one bit_eval uses for bit b) ----------------
+    initial_nodes(ctx, "C10.R6")
+    ctx.floor("C10.R6", 2)
+    # ---- R7 evaluation consults only the retained prefixes and the input bits, never the list of punctured inputs ----
+    eng, ret, st, fr = ctx.root(EVAL)
+    ip = fidx(ctx, KEY, "punctured")
+    ik_ = fidx(ctx, GGM, "key")
+    deps = Q.params(Q.leaves_cd(eng, ret, enum_origins=True)) | Q.params(Q.leaves_cd(eng, st.get(("param", "output")), enum_origins=True)) if st else set()
+    bad = sorted(p for p in deps if p.startswith("self.%d.%d" % (ik_, ip)))
+    ctx.add("C10.R7", EVAL + "#independent-of-punctured-list", not bad,
+            "evaluation (success and value) must be decided by the retained prefixes and the input alone; it depends on the "
+            "punctured list: %s" % bad, ctx.fn(EVAL).loc, sample=sorted(deps))
+    ctx.floor("C10.R7", 1)
     # ---- R5 = C11.R2: a successful puncture removes the covering node (else the input stays evaluable) -------
     from .c11 import covering_removed
     covering_removed(ctx, "C10.R5")
     ctx.floor("C10.R5", 2)
+
+
+def initial_nodes(ctx, rule, check_root_secret=False):
+    root = "ppoprf::ggm::GGMPuncturableKey::new"
+    eng, ret, st, fr = ctx.root(root)
+    at = ctx.fn(root).loc
+    iprg, ipf = fidx(ctx, KEY, "prgs"), fidx(ctx, KEY, "prefixes")
+    if ret is None or ret.op != "agg":
+        ctx.add(rule, root + "#shape", False, "GGMPuncturableKey::new does not return a key aggregate", at)
+        return
+    prgs = ret.args[1 + iprg]
+    pfx = ret.args[1 + ipf]
+    keys = []
+    if prgs.op == "agg":
+        for g in prgs.args[1:]:
+            keys.append(g.args[1] if g.op == "agg" and len(g.args) == 2 else None)
+    nodes = []
+    if pfx.op == "agg":
+        for el in pfx.args[1:]:
+            if el.op == "agg" and len(el.args) == 3:
+                bits = [t.args[1].args[0] for t in Q.find_all(el.args[1], lambda t: t.op == "ext" and "BitElement::new" in str(t.args[0]) and len(t.args) > 1 and t.args[1].op == "int")]
+                bits += [t.args[0].args[0] for t in Q.find_all(el.args[1], lambda t: t.op == "cast" and t.args[0].op == "int")]
+                nodes.append((bits[0] if bits else None, el.args[2]))
+    ok = len(keys) == 2 and len(nodes) == 2 and {b for b, _ in nodes} == {0, 1} and keys[0] is not keys[1]
+    det = "expected two PRGs and the two nodes [0], [1]; found %d PRGs, nodes %s" % (len(keys), [b for b, _ in nodes])
+    if ok:
+        for b, seed in nodes:
+            ks = [d for k, d, _ in Q.flat_ops(Q.trace_of(seed.args[1]))] if seed.op == "owf" else []
+            kd = [d for k, d, _ in Q.flat_ops(Q.trace_of(seed.args[1])) if k == "key"] if seed.op == "owf" else []
+            if not (kd and kd[0] is keys[b]):
+                ok = False
+                det = "the node for bit %d is not derived with PRG %d (the generator bit_eval uses for that bit)" % (b, b)
+    ctx.add(rule, root + "#child-b-uses-prg-b", ok,
+            "the two initial tree nodes must be derived with different generators, node [b] with prgs[b]: %s" % det, at, sample=det)
+    # both are derived from the same freshly sampled root secret (an RNG atom), which is not kept
+    roots = []
+    for b, seed in nodes:
+        ads = [d for k, d, _ in Q.flat_ops(Q.trace_of(seed.args[1])) if k == "ad"] if seed.op == "owf" else []
+        roots.append(ads[0] if ads else None)
+    okr = len(roots) == 2 and roots[0] is not None and roots[0] is roots[1] and roots[0].op == "rng"
+    ctx.add(rule, root + "#both-children-from-the-discarded-root", okr,
+            "both initial nodes must be PRG outputs of the same freshly sampled root secret (not of one another): inputs %s" % [S(r, 3) for r in roots],
+            at, sample=[S(r, 3) for r in roots])
 
 
 def descent_rules(ctx, rule):
